@@ -250,7 +250,9 @@ void runC18(const Scenario& sc, vf::Result& res) {
         if (r.chance(0.15)) { unlink(path.c_str()); what = "missing-file"; }
         else writeFile(path, bad);
         res.counters["fault_file_" + what]++;
+        vf::armHangWatchdog(20, "C18", "book-probe-hang", "a book probe did not return within 20 s on a damaged file (" + what + ", " + std::to_string(bad.size()) + " bytes)");
         probeAll(W, false, r, res, what);
+        vf::disarmHangWatchdog();
     }
     unlink(path.c_str());
     Parameters::instance().set("BookFile", "");
